@@ -162,7 +162,7 @@ class SchemaDesc:
         self.directives = []
 
     def to_json(self):
-        return {k: v for k, v in self.__dict__.items() if k != "pending_inputs"}
+        return {k: v for k, v in self.__dict__.items() if k not in ("pending_inputs", "want_custom_operations")}
 
 
 RISKY_KINDS = ("keyword_enum", "enum_in_object", "list_of_objects", "id_int", "list_coercion",
@@ -268,8 +268,10 @@ def _lit(d, desc, t, depth, ctx, nullable, kinds, risky, in_obj):
 
 
 def gen_schema(d, *, max_types=8, rich_names=True, defaults=0.3, custom_scalars=True,
-               mutation=True, subscription=False, input_heavy=False, descriptions=False):
+               mutation=True, subscription=False, input_heavy=False, descriptions=False,
+               want_custom_operations=None):
     desc = SchemaDesc()
+    desc.want_custom_operations = want_custom_operations
     tnames = d.shuffle(TYPE_NAMES)
 
     def take():
